@@ -61,6 +61,13 @@ var c12Hosts = []c12Named{
 	// names is ASCII folding (another DNS name)
 	{"dotted-capital-i", "w\u0130k\u0130.example.com"},
 	{"equal-wiki", "WIKI.example.com"},
+	// one byte away from a request host, same length: first, middle and last position
+	// (a comparison that skips a position, or stops one short, takes them for the same host)
+	{"first-byte-differs", "fxample.com"},
+	{"middle-byte-differs", "exbmple.com"},
+	{"last-byte-differs", "example.con"},
+	{"first-byte-differs-wiki", "viki.example.com"},
+	{"ipv6-last-digit-differs", "[::2]"},
 }
 
 var c12Ports = []string{"", "80", "8080"}
